@@ -266,7 +266,9 @@ PROPS['C03'] = {
 }
 PROPS['C11'] = {
     'level': 'exploration',
-    'vx': [{'unit': 'builder', 'functions': ['add_attribute', 'add_raw_attribute', 'add_message_integrity', 'add_fingerprint', 'lemma_first_among', 'lemma_among4', 'lemma_among_sub', 'lemma_holds_push']}],
+    'vx': [{'unit': 'builder', 'functions': ['add_attribute', 'add_raw_attribute', 'add_message_integrity', 'add_fingerprint', 'add_fingerprint_unchecked', 'add_message_integrity_unchecked', ':: builder',
+                                             'lemma_first_among', 'lemma_among4', 'lemma_among_sub', 'lemma_holds_push', 'lemma_has_inv', 'lemma_flags_has', 'lemma_ordered_push', 'lemma_ordered_ext', 'lemma_ordered_blist',
+                                             'lemma_blayout_tail_ok', 'lemma_last_tlv', 'theorem_builder_wellformed', 'theorem_guarded_builder_parses']}],
     'kx': ['k11_builder_queries_small'],
     'bx': ['c11'],
     'technique': 'Verus contracts on the four guard functions of the real MessageBuilder (add_attribute, add_raw_attribute, add_message_integrity, add_fingerprint) over an abstract type list, with the two iterator-adaptor query helpers and the two sealing workers under assumed contracts; bounded stand-in (exhaustive operation sequences over the sealing alphabet + random programs on the real MessageBuilder against the ordering rules of the statement) for everything assumed',
@@ -274,6 +276,7 @@ PROPS['C11'] = {
     'proved': ['(unit builder) add_attribute / add_raw_attribute: Err <==> the type is already present or the builder holds MESSAGE-INTEGRITY, MESSAGE-INTEGRITY-SHA256 or FINGERPRINT; on Err the whole builder is unchanged; on Ok exactly that attribute is appended to both the attribute list and the type list (representation invariant: the type list the queries answer from describes the attribute list that is serialised)',
                '(unit builder) add_message_integrity: SHA-1 refused <==> MI, MI-SHA256 or FINGERPRINT present; SHA-256 refused <==> MI-SHA256 or FINGERPRINT present; refused => builder unchanged; accepted => one attribute of that type appended',
                '(unit builder) add_fingerprint: refused <==> FINGERPRINT present; refused => builder unchanged',
+               '(unit builder) [C11.order] Message::builder starts with, and add_attribute / add_raw_attribute / add_message_integrity / add_fingerprint (and their workers) preserve, the ordering grammar `ord()` of the attribute list (only sealing attributes after an integrity attribute, nothing after FINGERPRINT, no repeated sealing attribute, values within the 16-bit field); theorem_guarded_builder_parses: a builder with `ord()` whose FINGERPRINT (if any) has the value add_fingerprint appends serialises (write_into, proved) to bytes satisfying wf_message, i.e. the parser (unit parse: Ok <==> wf_message) accepts it',
                'the documented panics of add_attribute/add_raw_attribute (integrity/fingerprint types passed directly) are preconditions; under them the panic!/unreachable arms are proved unreachable'],
     'bounded': ['has_attribute / has_any_attribute (iterator adaptors any/find over SmallVec): assumed contracts in VX (contains / first element among the given types), exercised by BX on every builder state (C11:query-vs-serialisation) and checked by Kani on builders of three symbolic types (k11_builder_queries_small, thorough tier, bounded)',
                 'add_message_integrity_unchecked / add_fingerprint_unchecked append exactly one attribute of the respective type: assumed in VX, BX compares the serialisation',
@@ -309,7 +312,7 @@ LEVEL_TEXT = {
  'C08': "Exploration: decode side proved - 14 typed decoders in Verus for value strings of ANY length (UTF-8 via vstd::utf8), 5 in Kani (complete); encode side proved for to_raw/length of the string types and the in-place writers of 15 types (C12). Still bounded only: UNKNOWN-ATTRIBUTES decoder (chunks_exact: no vstd specification, and the ghost-iterator traits cannot be implemented for a std type from outside vstd), the &str constructors - hence exploration.",
  'C09': "Proof: an accepted buffer with a FINGERPRINT at offset o satisfies value == crc32(bytes[..o] with length field o+8-20) ^ 0x5354554e and o+8 == len (clause fp_ok of wf_message, verified for all buffers); XOR constant by Kani for all 2^32 values. That Fingerprint::compute is CRC-32/ISO-HDLC, the builder side and the corruption sweeps are bounded.",
  'C10': "Proof: the iterator is verified to yield exactly the exposure rule of the statement on every accepted message; the 'hence' clauses (non-sealing exposed attributes lie before the end of the first integrity attribute; prefix stability) are spec-level lemmas; validate_integrity checks an exposed attribute over that prefix (C04). Lookups through `find`/`any` are bounded.",
- 'C11': "Exploration: the four guard functions of the real MessageBuilder are verified by Verus against the ordering rules of the statement (refused exactly when ..., refused => builder unchanged, accepted => appended), but over ASSUMED contracts for the two iterator-adaptor query helpers and the two sealing workers (SmallVec/dyn/HMAC are outside the verifier); those assumptions and the whole-sequence statement are decided by exhaustive operation sequences up to length 5/6 over the sealing alphabet plus random programs on the real builder - hence exploration.",
+ 'C11': "Exploration: the four guard functions of the real MessageBuilder are verified by Verus against the ordering rules of the statement (refused exactly when ..., refused => builder unchanged, accepted => appended), but over ASSUMED contracts for the two iterator-adaptor query helpers and the two sealing workers (SmallVec/dyn/HMAC are outside the verifier); those assumptions and the whole-sequence statement are decided by exhaustive operation sequences up to length 5/6 over the sealing alphabet plus random programs on the real builder - hence exploration. That every guarded operation keeps the ordering grammar, and that a builder obeying it serialises to a message the parser accepts, is proved (ord(), theorem_guarded_builder_parses).",
  'C12': "Exploration: for raw attributes and 15 typed attributes the in-place writer, the size guard of write_into and to_bytes are proved equal to the RFC TLV layout for values of any length (Verus), 4 more types by Kani; MessageBuilder::write_into's guard / exact-or-larger / nothing-beyond clauses are proved for attribute lists of any length (Verus). build() vs write_into (iterator sum; vstd has no specification of Iterator::sum and none can be added for a provided trait method) and clone() are bounded - hence exploration.",
  'C13': "Proof: complete Kani harnesses over all IPv4/IPv6 addresses x ports x transaction ids (fixed trip-count loops unwound with assertions): round trip, RFC wire bytes, other transaction id.",
  'C14': "Proof: push_data/pull_data/take verified against the abstract pull step; the stream-level statement (any frame list, any chunking, any interleaving) is theorem_history, an induction over those contracts (unique decoding of the length-prefixed stream).",
